@@ -9,17 +9,17 @@ import (
 // of the operands' states for that period (lead / overlap / gap / tail); periods neither operand
 // has are unset; operands are not modified.
 //
-//zx:harness prop=C05 id=C05.M1 tier=quick env=sum shard=e:2,res:2,nA:3,nB:3 ne=2 quick.spread=2 quick.tbspan=1 N=2 thorough.ne=4 thorough.N=3 thorough.shard=e:4,res:3,nA:4 thorough.nres=3
+//zx:harness prop=C05 id=C05.M1 tier=quick env=sum shard=e:2,res:2,nA:4,nB:3 ne=2 quick.spread=2 quick.tbspan=1 quick.NB=2 N=3 thorough.ne=4 thorough.N=4 thorough.shard=e:4,res:3,nA:4 thorough.nres=3
 func zxC05Merge() { zxMergeCore(true) }
 
 // C04.M — Merge never modifies its operands (freeze monitor only).
 //
-//zx:harness prop=C04 id=C04.M tier=quick env=sum shard=res:2,nA:3 ne=1 quick.spread=2 quick.tbspan=1 N=2 thorough.ne=4 thorough.N=3 thorough.shard=e:4,res:3,nA:4 thorough.nres=3
+//zx:harness prop=C04 id=C04.M tier=quick env=sum shard=res:2,nA:4,nB:3 ne=1 quick.spread=2 quick.tbspan=1 quick.NB=2 N=3 thorough.ne=4 thorough.N=4 thorough.shard=e:4,res:3,nA:4 thorough.nres=3
 func zxC04Merge() { zxMergeCore(false) }
 
 // C14.M — Merge keeps every in-window period of both operands (same oracle as C05.M1, one layout).
 //
-//zx:harness prop=C14 id=C14.M tier=quick env=sum shard=res:2,nA:3 ne=1 quick.spread=2 quick.tbspan=1 N=2 thorough.ne=2 thorough.N=3 thorough.shard=e:2,res:3,nA:4 thorough.nres=3
+//zx:harness prop=C14 id=C14.M tier=quick env=sum shard=res:2,nA:4,nB:3 ne=1 quick.spread=2 quick.tbspan=1 quick.NB=2 N=3 thorough.ne=2 thorough.N=4 thorough.shard=e:2,res:3,nA:4 thorough.nres=3
 func zxC14Merge() { zxMergeCore(true) }
 
 func zxMergeCore(oracle bool) {
@@ -28,8 +28,9 @@ func zxMergeCore(oracle bool) {
 	base := zxBase(res)
 	N := vrtParam("N", 2)
 	w := l.e.EncodedWidth()
+	// a late, short series landing in the middle of a longer stored one needs |A| >= 3
 	a := zxValidSeq("A", l.e, res, base, N, vrtParam("spread", N+1))
-	b := zxValidSeq("B", l.e, res, base, N, vrtParam("spread", N+1))
+	b := zxValidSeq("B", l.e, res, base, vrtParam("NB", N), vrtParam("spread", N+1))
 	zxAssumeFinite(l, a)
 	zxAssumeFinite(l, b)
 	var tb, tbr time.Time
